@@ -20,7 +20,10 @@ type C13Case struct {
 }
 
 var hostilePieces = []string{"\"", "'", "\\", "%", "%v", "%d", "%%", "%s", "{", "}", "{{", "}}", "\n", "\t", "`", "$", "$message", "é", "😀", " ", "and", "warning",
-	"rego", "message", "x", "A", "0", "_", "-", ".", "#", ":", "\\n", "\\\"", " ", "\u0001", "\u007f", "/", "|", "[", "]", ",", "null", "true"}
+	"rego", "message", "x", "A", "0", "_", "-", ".", "#", ":", "\\n", "\\\"", " ", "\u0001", "\u007f", "/", "|", "[", "]", ",", "null", "true",
+	// code points scanners and serialisers single out: byte-order mark, no-break space, bidi override, line/paragraph separators, NEL,
+	// zero-width space, the replacement character, the last BMP code point, astral letters (need surrogate pairs in \u escapes)
+	"\ufeff", "\u00a0", "\u202e", "\u2028", "\u2029", "\u0085", "\u200b", "\ufffd", "\uffff", "\U0001d4d0", "\U00010380", "\U000e0067", "\U0010ffff"}
 
 func (g *G) hostile(maxPieces int) string {
 	var b strings.Builder
